@@ -173,6 +173,13 @@ def build(wb: WB, spec: dict):
         o = wb.job({"x": e}, op="inc", name="/fx", dirs=(base + "/fixed-in", base + "/fixed-out", base + "/fixed-tmp"))
         wb.out("o", wb.gather(o, sz))
         return {"o": inc(vals)}
+    if k == "multiloc":  # scattered jobs, each allocated to `locs` locations of one deployment with `nlocs` locations
+        vals = list(range(spec["n"]))
+        p = wb.inp("a", vals)
+        e, sz = wb.scatter(p)
+        o = wb.job({"x": e}, op="inc", name="/ml", locations=spec["locs"])
+        wb.out("o", wb.gather(o, sz))
+        return {"o": inc(vals)}
     if k == "twojobs":  # two independent jobs merged: diamond A -> {B, C} -> D
         p = wb.inp("a", 1)
         a = wb.job({"x": p}, op="inc", name="/A")
@@ -242,6 +249,8 @@ def program_jobs(spec):
         return ["/A/0", "/B/0", "/C/0", "/D/0"]
     if k == "fixeddirs":
         return [f"/fx/0.{i}" for i in range(spec["n"])]
+    if k == "multiloc":
+        return [f"/ml/0.{i}" for i in range(spec["n"])]
     if k == "filejobs":
         return [f"/f{i}/0" for i in range(spec["k"])]
     if k == "filescatter":
@@ -276,7 +285,7 @@ async def _main(loop, params, res):
     fm = params.get("fm")
     ctx = wfkit.make_context(workdir, failure_manager=fm)
     run = execkit.reset_run(params.get("plan"))
-    wb = WB(ctx, workdir)
+    wb = WB(ctx, workdir, nlocs=params["spec"].get("nlocs", 1))
     res["expected"] = build(wb, params["spec"])
     wf = await wb.finish()
     res["wf"] = wf
